@@ -58,6 +58,11 @@ CHECKS = {
         "Every subset of {0,1,2,3,253,254,255} plus dense/sparse registries as initial state, all sequences of id requests / presentations to depth 3 (quick) / 5 (thorough); registry inspected at the instant of the transport write.",
         "Depth-bounded per initial registry.",
         "5/C11"),
+    "C12": ("E3", "exploration",
+        "bounded-exhaustive enumeration of send calls (command x type x buffering flag x destination state x version) on the real gateway with a written/held-then-released/library-error oracle",
+        "Every codec-accepted message over types 0-60 / -1..41 / -1..8 per command x message_buffer default/True/False x destination unknown/awake/sleeping x five versions is sent on a fresh real gateway; if nothing is written the destination is woken and the release is checked.",
+        "One destination node and child; 'held' is checked at the very next wake only.",
+        "5/C12"),
     "C19": ("E1", "model_checking",
         "differential explicit-state BFS over the product of two real gateways (old, new protocol)",
         "8 version pairs; every internal/stream type of the older table x 3 payloads in 3-7 base states, and all histories to depth 4 (quick) / 6 (thorough) of lines and send calls; outcome, writes and registry must agree per step.",
